@@ -141,7 +141,7 @@ def instantiate(E, name, spec):
             E.assume(p0 >= 0)
             if not spec.infinite:
                 E.assume(p0 <= ln)
-            ghost = {'pulled': p0, 'maxidx': p0 - 1, 'infinite': spec.infinite}
+            ghost = {'pulled': p0, 'maxidx': p0 - 1, 'infinite': spec.infinite, 'pulled_initial': p0}
         sq = VSeq(name, ln, spec.kind, ghost)
         E.assume(ln >= 0)
         return sq
@@ -239,7 +239,7 @@ class Contract:
     def __init__(self, func, params, requires=(), ensures=None, exc_ensures=None,
                  raises=None, raises_any=False, invariants=None, uses=(), returns=None,
                  effects=None, concretize=None, native=None, pre_hook=None, post_hook=None,
-                 notes='', propagate_opaque=True, max_paths=None, exit_hook=None, variant=None, cuts=None, call_hook=None):
+                 notes='', propagate_opaque=True, max_paths=None, exit_hook=None, variant=None, cuts=None, call_hook=None, lazy_len=False):
         self.func = func
         self.params = params
         self.requires = list(requires)
@@ -262,6 +262,7 @@ class Contract:
         self._depth0 = 1
         self.variant = variant
         self.cuts = list(cuts or [])
+        self.lazy_len = lazy_len
         self.call_hook = call_hook    # callable(E, env_locals) -> value | None (None: use the generic rule)
         self._cut_nodes = {}
         self.key = func if not variant else '%s#%s' % (func, variant)
